@@ -12,7 +12,7 @@
    vr says which revision of the code is modelled; [code_variant] (= all six `fix:` commits of
    /repo/rapidproto in) is the one the correspondence check ties to the implementation. Theorems that
    need a repair state it as a hypothesis on vr and are instantiated at [code_variant] below. *)
-From CP Require Import DecodeTotal Extra RapidGen RapidGenProofs RapidGenSound RapidProg RapidProgProofs.
+From CP Require Import DecodeTotal Extra RapidGen RapidGenProofs RapidGenSound RapidProg RapidProgProofs RapidProgEqb.
 Local Open Scope N_scope.
 
 (* termination: fuel depthLimit + 2 suffices for every schema (recursive ones included: recursion
@@ -203,14 +203,8 @@ Theorem rapidprog_correct : forall o sch ann,
   forall mid extra tape, (mid < length sch)%nat ->
     rp_generate o sch ann canon_rapidproto (rp_fuel + extra) mid tape = Some (gen code_variant o sch ann mid tape).
 Proof. exact RapidProgProofs.rapidprog_correct. Qed.
-(* ... under the premises gen_in_range already has *)
-Theorem rapidprog_correct_std : forall o sch ann,
-  wf sch = true -> ann_ok sch ann = true -> enums_ok sch ann -> fmap_gen_sound o -> fmap_typed o ->
-  forall mid extra tape, (mid < length sch)%nat ->
-    rp_generate o sch ann canon_rapidproto (rp_fuel + extra) mid tape = Some (gen code_variant o sch ann mid tape).
-Proof. exact RapidProgProofs.rapidprog_correct_std. Qed.
-(* hence what the translated-and-compared code generates lies in the range of the generator model: every validity theorem above
-   (gen_outputs_valid) applies to it *)
+(* hence (the two premises follow from those of gen_in_range: RapidProgProofs.rapidprog_correct_std) what the translated-and-compared
+   code generates lies in the range of the generator model: every validity theorem above (gen_outputs_valid) applies to it *)
 Theorem rapidprog_in_range : forall o sch ann,
   wf sch = true -> ann_ok sch ann = true -> NoDup (map a_name ann) -> enums_ok sch ann ->
   fmap_gen_sound o -> fmap_typed o -> fmap_bytes_norm o ->
@@ -219,6 +213,11 @@ Theorem rapidprog_in_range : forall o sch ann,
     N.of_nat (length (emit sch false mid v)) < two63 ->
     rapid_in_range code_variant o sch ann mid v = true.
 Proof. exact RapidProgProofs.rapidprog_in_range. Qed.
+
+(* the comparison the driver makes (`RAPIDPROG <name> eqb`) is sound: a translated declaration the decidable equality accepts IS
+   the canonical one *)
+Theorem rdecl_eqb_sound : forall a b : rdecl, rdecl_eqb a b = true -> a = b.
+Proof. exact RapidProgEqb.rdecl_eqb_sound. Qed.
 
 (* non-vacuity: on the demo schema (recursion through lists and bool-keyed maps, oneof, enum, the four well-known types, Any with
    accepts_interface and Any inside Any) with AnyTypeURLs, an interface hint, NoEmptyLists and the string mapper, the interpreter
